@@ -73,7 +73,12 @@ Reader ==
                /\ nclone' = nclone + 1
                /\ chan' = Append(chan, Msg(m.id, None, "newsession", s, {"done"}))
             /\ UNCHANGED <<queue, flag, wk, buf, flusher, printed, intrSeen>>
-       [] m.op \in {"eval", "load-file"} ->   \* load-file goes through the same queue and worker
+       [] m.op \in {"describe", "ls-sessions"} ->   \* answered by the reader itself
+            /\ chan' = Append(chan, Done(m.id, m.session, {"done"}))
+            /\ UNCHANGED <<live, nclone, queue, flag, wk, buf, flusher, printed, intrSeen>>
+       [] m.op \in {"eval", "load-file", "completions", "lookup"} ->
+            \* every session-bound op goes through the same queue and worker; completions and lookup carry the
+            \* script <<[k |-> "info"]>>: the worker answers from its environment with one final message
             IF m.session \in live
             THEN /\ queue' = [queue EXCEPT ![m.session] = Append(@, [id |-> m.id, script |-> m.script])]
                  /\ UNCHANGED <<live, nclone, flag, wk, buf, flusher, chan, printed, intrSeen>>
@@ -124,7 +129,11 @@ WorkerResetFlag(s) ==
 
 WorkerStep(s) ==
   /\ wk[s].st = "running"
-  /\ IF flag[s]
+  /\ IF wk[s].script[wk[s].pc].k = "info"
+     THEN \* completions / lookup do not evaluate anything: they neither test nor clear the interrupt flag
+          /\ wk' = [wk EXCEPT ![s].st = "evaldone", ![s].outcome = "info"]
+          /\ UNCHANGED <<flag, buf, printed>>
+     ELSE IF flag[s]
      THEN \* the evaluator sees the flag at the top of a step, clears it and stops
           /\ flag' = [flag EXCEPT ![s] = FALSE]
           /\ wk' = [wk EXCEPT ![s].st = "evaldone", ![s].outcome = "interrupted"]
@@ -180,8 +189,9 @@ WorkerFinalDrain(s) ==
 WorkerReply(s) ==
   /\ wk[s].st = "drained"
   /\ LET id == wk[s].id  oc == wk[s].outcome IN
-     chan' = chan \o (IF oc = "value" THEN <<Msg(id, s, "value", "", {})>> ELSE <<Msg(id, s, "err", ERRTEXT, {})>>)
-                  \o <<Done(id, s, CASE oc = "value" -> {"done"}
+     chan' = chan \o (IF oc = "value" THEN <<Msg(id, s, "value", "", {})>>
+                      ELSE IF oc = "info" THEN <<>> ELSE <<Msg(id, s, "err", ERRTEXT, {})>>)
+                  \o <<Done(id, s, CASE oc \in {"value", "info"} -> {"done"}
                                      [] oc = "interrupted" -> {"done", "interrupted"}
                                      [] OTHER -> {"done", "eval-error"})>>
   /\ wk' = [wk EXCEPT ![s] = IdleW]
